@@ -14,6 +14,7 @@ print(f"demo with patch: rc={r1.returncode} {r1.stdout.strip()[-80:]!r}; clean: 
 t = sh(f"cd {wt} && PYTHONPATH={wt} /venv/bin/python -m pytest -q -p no:cacheprovider --timeout=900 --continue-on-collection-errors tests 2>&1 | tail -1")
 print("tests with patch:", t.stdout.strip())
 # apply to /repo, run the checks, undo
+sh("rm -rf /tmp/evidence_backup && cp -r /verif/evidence /tmp/evidence_backup")
 a = sh(f"git -C /repo apply {out}/patch.diff")
 if a.returncode:
     print("APPLY FAILED", a.stderr); sys.exit(2)
@@ -27,6 +28,7 @@ try:
         print(p, res[p])
 finally:
     sh("git -C /repo checkout -- .")
+    sh("rm -rf /verif/evidence && mv /tmp/evidence_backup /verif/evidence")   # evidence describes the unchanged tree only
     print("repo restored:", sh("git -C /repo status --short").stdout.strip() or "clean")
 json.dump({"demo_fails_with_patch": r1.returncode != 0, "demo_passes_clean": r0.returncode == 0,
            "tests_with_patch": t.stdout.strip(), "checks": res}, open(os.path.join(out, "eval.json"), "w"), indent=1)
